@@ -178,9 +178,11 @@ type History struct {
 	PathUsed map[Path]int
 
 	// Outcome
-	Panics            []*Panic
-	Divergences       []*ReplicaDivergence
-	PreconditionLost  string // non-empty: the documented election precondition was lost
+	Panics           []*Panic
+	Divergences      []*ReplicaDivergence
+	PreconditionLost string // non-empty: the documented election precondition was lost
+	// PreconditionBlock is the block whose execution reported the lost precondition.
+	PreconditionBlock *Block
 	RejectedProposals int
 	// TamperedProposals counts tampered copies of an own proposal offered to the proposer replica.
 	TamperedProposals int
@@ -517,6 +519,7 @@ func (h *History) Step() bool {
 			if isPrecondition(p.Value) {
 				h.Panics = h.Panics[:len(h.Panics)-1]
 				h.PreconditionLost = p.Value
+				h.PreconditionBlock = b
 			} else {
 				h.Panics = append(h.Panics, p)
 			}
@@ -536,6 +539,7 @@ func (h *History) Step() bool {
 	if p := guard("Finalize", h.Ref, height, func() { ref = h.Ref.Finalize(b, nil) }); p != nil {
 		if isPrecondition(p.Value) {
 			h.PreconditionLost = p.Value
+			h.PreconditionBlock = b
 		} else {
 			h.Panics = append(h.Panics, p)
 		}
